@@ -63,9 +63,17 @@ def run_pipe(rng, counters):
              "end_policy": "clean", "error_rate": rng.choice([0.0, 0.02]), "het_prob": 0.8,
              # one file per sample, each numbering its reads from 0: read names recur across the files of a family
              "per_sample_bam": rng.random() < 0.3, "names_per_sample": rng.random() < 0.5}
+        unsequenced = None
+        if ped and rng.random() < 0.35:
+            # one family member was not sequenced (no reads, no read group); its phase comes from a phased VCF only. The cap
+            # is stated over all members of the family, pseudo reads included
+            unsequenced = rng.choice(samples[:2]) if rng.random() < 0.7 else samples[-1]
+            p["read_samples"] = [s_ for s_ in samples if s_ != unsequenced]
+            p["rg_only_read_samples"] = True
+            p["per_sample_bam"] = False
         sim = genome.simulate(rng, tmp, p)
         inputs = list(sim.bams)
-        with_vcf = rng.random() < 0.4
+        with_vcf = rng.random() < 0.4 or unsequenced is not None
         if with_vcf:
             doc, _ = genome.truth_phased_doc(sim, rng, tag="PS", block_len=(2, 6), interleave=rng.random() < 0.5)
             pv = os.path.join(tmp, "phased_input.vcf")
@@ -86,6 +94,8 @@ def run_pipe(rng, counters):
                 return [], False, desc
             return [pipeline.crash_violation(msg)], False, desc
         counters["pipe_runs_ok"] = counters.get("pipe_runs_ok", 0) + 1
+        if unsequenced:
+            counters["pipe_runs_with_unsequenced_member"] = counters.get("pipe_runs_with_unsequenced_member", 0) + 1
         if with_vcf:
             counters["pipe_runs_with_phased_vcf"] = counters.get("pipe_runs_with_phased_vcf", 0) + 1
         if merging:
